@@ -69,6 +69,10 @@ def equal_copy(t):
     return t
 
 
+def skip_value_factory():
+    return SKIP_VALUE
+
+
 def build(term):
     """-> live spec object; also annotates the term (a list) with the object under key index -1 via a side table"""
     k = term[0]
@@ -110,6 +114,11 @@ def build(term):
         obj = Coalesce(*[build(x) for x in term[1]], skip=SKIP_VALUE)
     elif k == 'coalesce_any':
         obj = Coalesce(*[build(x) for x in term[1]], skip_exc=Exception)
+    elif k == 'coalesce_default':
+        # recovers from every GlomError with a value that a skip=SKIP_VALUE parent skips; default_factory, so that no further child is evaluated
+        obj = Coalesce(*[build(x) for x in term[1]], default_factory=skip_value_factory)
+    elif k == 'checksub':
+        obj = Check(build(term[1][0]), type=str)
     elif k == 'or':
         obj = Or(*[build(x) for x in term[1]])
     elif k == 'and':
@@ -261,6 +270,23 @@ def ev(term, target):
                 attempts.append({'spine': f.spine, 'err': f.err, 'closed': False})
                 raise Fail(f.err, False, [frame(term, target, attempts)], f.eid)
         raise Fail('CoalesceError', True, [frame(term, target, attempts)])
+    if k == 'coalesce_default':
+        for kid in kids:
+            try:
+                return ev(kid, target)
+            except Fail as f:
+                if f.is_glom:
+                    continue
+                raise Fail(f.err, False, [frame(term, target, [{'spine': f.spine, 'err': f.err, 'closed': False}])], f.eid)
+        return SKIP_VALUE          # recovered: nothing of the failed branches belongs to a later error
+    if k == 'checksub':
+        try:
+            v = ev(kids[0], target)
+        except Fail as f:
+            raise Fail(f.err, f.is_glom, [frame(term, target)] + f.spine, f.eid)
+        if type(v) is str:
+            return target
+        raise F('CheckError')       # raised by the Check itself: the trace ends at this spec
     if k == 'coalesce_any':      # skip_exc=Exception: every failing branch is abandoned, whatever its class
         attempts = []
         for kid in kids:
@@ -602,6 +628,13 @@ def composites(kids):
         out.append(['tuple', [['path', 'l'], ['list', [a]]]])
         out.append(['switch', [[a, ['val', 1]]]])
         out.append(['switch', [[['fn', 'ok'], a]]])
+    for a in kids:
+        # a failure that is recovered by a default, as the LAST child of a spec that then raises an error of its own
+        out.append(['checksub', [['coalesce_default', [a]]]])
+        out.append(['coalesce_skip', [['coalesce_default', [a]]]])
+        out.append(['coalesce_skip', [['path', 'a'], ['coalesce_default', [a, a]]]])
+        out.append(['tuple', [['coalesce_default', [a]], ['check']]])
+        out.append(['checksub', [a]])
     for a, b in itertools.product(kids, repeat=2):
         out.append(['dict', [a, b]])
         out.append(['tuple', [a, b]])
